@@ -129,9 +129,11 @@ Probes == {[d |-> d, out |-> LoadModel(Sch, shape, d)] : d \in ProbeInputs}
 
 \* objects to dump: every field set / every subset of optional fields at its default (absent, where the kind has no defaults)
 Objects == {[i \in 1..Len(shape) |-> IF i \in D THEN (IF shape[i].hasdfl THEN DflV(i) ELSE AbsentV) ELSE GoodV(i)] : D \in SUBSET Optional}
+\* ... each of them with one defaulted field holding a falsy value that is not the default ("equal to default" is not "falsy")
+FalsyObjects == {[o EXCEPT ![i] = FalsyV(i)] : o \in Objects, i \in {j \in Optional : shape[j].hasdfl}}
 \* ... and each of them with one typed field holding a value its dumper refuses
 BadObjects == {[o EXCEPT ![i] = BadV(i)] : o \in Objects, i \in {j \in 1..Len(shape) : shape[j].ty # "any"}}
-Dumps == {[obj |-> o, fails |-> DumpFails(Sch, shape, o), out |-> DumpModel(Sch, shape, o)] : o \in Objects \cup BadObjects}
+Dumps == {[obj |-> o, fails |-> DumpFails(Sch, shape, o), out |-> DumpModel(Sch, shape, o)] : o \in Objects \cup FalsyObjects \cup BadObjects}
 
 (* ------------------------------ model-level properties -------------------------------- *)
 \* a created loader accepts the input its own layout prescribes and gives every field its value
@@ -140,12 +142,12 @@ OwnInputLoads == CreatedIn => LET r == LoadModel(Sch, shape, Base({}, {})) IN
 \* loader and dumper use the same paths: loading what the dumper wrote gives the object back (nothing omitted)
 LoaderDumperAgree ==
   (CreatedIn /\ CreatedOut /\ PsIn = PsOut /\ Sch.omit = SetSel({}) /\ (Sch.extra_out.p = "skip" \/ Sch.extra_in.p # "forbid")) =>
-      \A o \in Objects : LET r == LoadModel(Sch, shape, DumpModel(Sch, shape, o)) IN
+      \A o \in Objects \cup FalsyObjects : LET r == LoadModel(Sch, shape, DumpModel(Sch, shape, o)) IN
                          r.ok /\ \A i \in LiveIn : r.obj[i] = o[i]
 \* with omit_default the omitted fields come back as their defaults
 OmitDefaultRoundTrip ==
   (CreatedIn /\ CreatedOut /\ PsIn = PsOut /\ (Sch.extra_out.p = "skip" \/ Sch.extra_in.p # "forbid")) =>
-      \A o \in Objects : LET r == LoadModel(Sch, shape, DumpModel(Sch, shape, o)) IN
+      \A o \in Objects \cup FalsyObjects : LET r == LoadModel(Sch, shape, DumpModel(Sch, shape, o)) IN
                          r.ok => \A i \in LiveIn : r.obj[i] = o[i]
 \* C17 at model level: declaring the same logical model in another kind changes nothing but the absence of defaults -
 \* same paths, same loader verdict, same outcome for every probe up to AbsentV for DflV; a dumper refused for a total kind is
